@@ -38,7 +38,7 @@ _TOKEN = re.compile(r"""
 """, re.X)
 
 KEYWORDS = {"fn", "return", "print", "if", "else", "while", "from", "to", "through", "step", "modify", "const",
-            "class", "constructor", "nil", "true", "false", "is", "get", "map", "assert", "break", "continue"}
+            "class", "constructor", "nil", "true", "false", "is", "get", "map", "assert", "break", "continue", "or"}
 OPASSIGN = ("+=", "-=", "*=", "/=", "%=")
 
 
@@ -323,7 +323,11 @@ class Parser:
     # ---- expressions: is < get < || < && < comparison < + - < * / % < ! - < postfix (one per atom)
     def expr(self):
         l = self.e_get()
-        while self.at("is"):
+        while self.at("is") or self.at("or"):
+            if self.at("or"):           # `(x) or fallback`: the fallback is evaluated only when x is nil
+                self.eat("or")
+                l = ("or", l, self.e_get())
+                continue
             self.eat("is")
             r = self.e_get()
             l = ("bin", "is", l, r)
@@ -496,6 +500,9 @@ def free_names(params, body):
         elif k == "bin":
             ex(e[2])
             ex(e[3])
+        elif k == "or":
+            ex(e[1])
+            ex(e[2])
         elif k in ("not", "neg", "get", "paren"):
             ex(e[1])
         elif k == "call":
@@ -989,6 +996,9 @@ class Interp:
             if v is None:
                 raise Failure("nil")
             return v
+        if k == "or":
+            v = self.ev(e[1], act)
+            return self.ev(e[2], act) if v is None else v
         if k == "call":
             callee = e[1]
             if callee[0] == "name" and callee[1] == "Self":
